@@ -5,7 +5,7 @@ tier=$1; shift
 rc=0
 for seed in "$@"; do
   for p in C01 C02 C03 C04 C05 C06 C07 C08 C09 C10 C11 C12 C13 C14 C15 C16 C17 C18 C19 C20; do
-    out=$(VERIF_NO_EVIDENCE=${SWEEP_NO_EVIDENCE:-1} ./check $p --tier $tier --seed $seed 2>&1); code=$?
+    if [ "${SWEEP_NO_EVIDENCE:-1}" = "0" ]; then out=$(./check $p --tier $tier --seed $seed 2>&1); code=$?; else out=$(VERIF_NO_EVIDENCE=1 ./check $p --tier $tier --seed $seed 2>&1); code=$?; fi
     echo "$out" | grep -E "^$p tier=" | sed "s/^/[exit $code] /"
     if [ $code -ne 0 ]; then rc=1; echo "$out" | grep -E "VIOLATION|INCONCLUSIVE|witness" | cut -c1-400; fi
   done
